@@ -29,7 +29,8 @@ chain of `parentCtx` of `t`.  Values are rendered by `rExpr`, `rTtc`, `rExprs`, 
   `translated_eq_is_model` (Python's `==` on the values that are de-duplicated = `catEqv` / `assetEqv` / `assocEqv`),
   `translated_dedup_meta_order`, `translated_dedup_number_spelling` (the two repaired divergences, on the translated
   code), `translated_include_flatten`, `translated_include_repeat`;
-* steps, assets, categories, whole files (§8): `translated_step_is_model` (`visitStep`), `translated_declarations_are_model`
+* steps, assets, categories, whole files (§8): `translated_step_is_model` (`visitStep`), `translated_asset_is_model`
+  (`visitAsset`), `translated_declaration_is_model` (`visitCategory`, …), `translated_declarations_are_model`
   (`visitCategory` / `visitAsset` / … for every declaration of a file: the hypothesis `DeclVisits` of
   `translated_visitMal_is_assemble` discharged), `translated_parser_accepts_iff`, **`translated_compile_is_model`**
   (translated visitor ∘ tree builder ∘ lexer = rendered `compileFile`, errors iff errors, for every file system),
@@ -599,6 +600,81 @@ theorem translated_declarations_are_model (c : V → M V) (all : List Tok) (wf f
     rw [hs] at h
     obtain ⟨ds, hp, -, hv⟩ := h
     exact ⟨ds, by simpa using hp, hv⟩
+
+/-- **An asset** `abstract? asset ID (extends ID)? meta* { (step | variable)* }` at its place in the token stream, below
+a `category` context of the name `cat` (`visitAsset` reads `ctx.parentCtx.ID()`): the tree builder fails exactly when
+the model parser fails; otherwise the same tokens are consumed and the translated `visitAsset` (name = first `ID`,
+`isAbstract` = there is an `ABSTRACT` token, `superAsset` = second `ID` if there is one, meta comprehension, the two
+comprehensions over `ctx.variable()` / `ctx.step()`) returns the rendering of the model's asset. -/
+theorem translated_asset_is_model (c : V → M V) (all : List Tok) (wf f : Nat) (cat : String) (its : List ITok)
+    (hpos : AtPos all its) (hok : ∀ x ∈ its, tokOK x.1 = true) :
+    (treeAsset f its = none → parseAsset f cat (its.map Prod.fst) = none) ∧
+    (∀ t irest, treeAsset f its = some (t, irest) →
+      ∃ a, parseAsset f cat (its.map Prod.fst) = some (a, irest.map Prod.fst) ∧
+        ∀ g ci cj crest up, t.depth ≤ g → up.length + 1 + t.depth < wf → (∀ p ∈ up, isRule "reaches" p = false) →
+          visitF c (tokensV all) wf g (.ctx t (catNode ci cj cat crest :: up)) = .ok (rAsset a)) := by
+  have h := asset_tie c all wf f cat its hpos hok
+  constructor
+  · intro hn; rw [hn] at h; exact h
+  · intro t irest hs
+    rw [hs] at h
+    obtain ⟨a, hp, -, -, hv⟩ := h
+    exact ⟨a, hp, hv⟩
+
+/-- **One declaration** — in particular `category ID meta* { asset* }`: the tree builder fails exactly when the model
+parser fails; otherwise the same tokens are consumed, the tree is a `declaration` context with one child, and the
+translated visitor on the child (`visitCategory`: `("categories", ([{name, meta}], [every asset]))`; `visitInclude`;
+`visitDefine`; `visitAssociations`) returns the rendering `rDecl` of the model's declaration. -/
+theorem translated_declaration_is_model (c : V → M V) (all : List Tok) (wf f : Nat) (its : List ITok)
+    (hpos : AtPos all its) (hok : ∀ x ∈ its, tokOK x.1 = true) :
+    (treeDecl f its = none → parseDecl f (its.map Prod.fst) = none) ∧
+    (∀ t irest, treeDecl f its = some (t, irest) →
+      ∃ d, parseDecl f (its.map Prod.fst) = some (d, irest.map Prod.fst) ∧
+        ∃ child, t = .rule "declaration" [child] ∧
+          ∀ g up, t.depth ≤ g → up.length + t.depth < wf → (∀ p ∈ up, isRule "reaches" p = false) →
+            visitF c (tokensV all) wf g (.ctx child (t :: up)) = .ok (rDecl d)) := by
+  have h := decl_tie c all wf f its hpos hok
+  constructor
+  · intro hn; rw [hn] at h; exact h
+  · intro t irest hs
+    rw [hs] at h
+    obtain ⟨d, hp, -, hv⟩ := h
+    exact ⟨d, hp, hv⟩
+
+/-- a category with an abstract asset (one step with tag, CIA, TTC, meta, requires, reaches) and an asset that extends
+it (one variable) -/
+def demoCategoryToks : List Tok :=
+  [.kwCategory, .id "Sys", .id "user", .kwInfo, .colon, .str "\"x\"", .lcurly,
+     .kwAbstract, .kwAsset, .id "Ab", .lcurly,
+       .or_, .id "s", .at, .id "hidden", .lcurly, .c, .comma, .a, .rcurly, .lsquare, .id "Exponential", .lparen, .float "0.5", .rparen, .rsquare,
+         .id "user", .kwInfo, .colon, .str "\"y\"", .requires, .id "f", .leadsto, .id "g", .dot, .id "h", .comma, .id "k",
+     .rcurly,
+     .kwAsset, .id "Bc", .kwExtends, .id "Ab", .lcurly, .kwLet, .id "v", .assign, .id "f", .union, .id "g", .rcurly,
+   .rcurly]
+
+/-- the statements speak about something, and their hypotheses are satisfiable: on `demoCategoryToks` tree builder and
+model parser succeed and consume everything, and the translated visitor on the `category` context returns the
+rendering of the model's declaration (for every sufficient budget) -/
+example : ∃ t child d, treeDecl 30 (indexed demoCategoryToks) = some (t, []) ∧ t = .rule "declaration" [child] ∧
+    parseDecl 30 demoCategoryToks = some (d, []) ∧
+    ∀ g, t.depth ≤ g → visitF (fun _ => .error .compileError) (tokensV demoCategoryToks) 100 g (.ctx child [t]) = .ok (rDecl d) := by
+  have hmap : (indexed demoCategoryToks).map Prod.fst = demoCategoryToks := by rw [Mal.indexed, List.zipIdx_map_fst]
+  have h := translated_declaration_is_model (fun _ => .error .compileError) demoCategoryToks 100 30
+    (indexed demoCategoryToks) (AtPos.indexed _) (by decide)
+  rw [hmap] at h
+  have hsome : (parseDecl 30 demoCategoryToks).map (·.2) = some [] := by decide
+  have hdepth : (treeDecl 30 (indexed demoCategoryToks)).map (fun r => decide (r.1.depth < 100)) = some true := by decide
+  cases ht : treeDecl 30 (indexed demoCategoryToks) with
+  | none => rw [h.1 ht] at hsome; cases hsome
+  | some r =>
+    obtain ⟨t, irest⟩ := r
+    obtain ⟨d, hp, child, hc, hv⟩ := h.2 t irest ht
+    rw [hp] at hsome
+    have hnil : irest = [] := by simpa using hsome
+    subst hnil
+    rw [ht] at hdepth
+    have hd : t.depth < 100 := by simpa using hdepth
+    exact ⟨t, child, d, rfl, hc, hp, fun g hg => hv g [] hg (by simpa using hd) (fun _ h => by cases h)⟩
 
 /-- the former hypotheses `numOK` (numeric tokens carry a text `float` accepts) and `intOK` (INT tokens are non-empty
 ASCII digit strings) hold of every token the model lexer produces -/
